@@ -524,6 +524,7 @@ func c10Random(env *Env, ttlSecs uint32, tick int64, depth int, nkeys int) (stri
 			}
 		}
 		ntm, ncb := len(clk.timers), len(clk.cbs)
+		nowNs := clk.now
 		clk.mu.Unlock()
 		var a c10Act
 		k := keys[r.Intn(len(keys))]
@@ -557,6 +558,12 @@ func c10Random(env *Env, ttlSecs uint32, tick int64, depth int, nkeys int) (stri
 			case y < 11:
 				d = int64(r.Intn(int(ttl/int64(time.Millisecond)))) * int64(time.Millisecond)
 			default:
+				d = -5
+			}
+			// virtual time stays where now+ttl is representable as a time.Duration (int64 ns,
+			// about 292 years): beyond it time.Time.Sub saturates, which is the clock's
+			// arithmetic and not the collector's
+			if d > 0 && nowNs > int64(9.2e18)-ttl-int64(1e12)-d {
 				d = -5
 			}
 			a = c10Act{op: "A", n: d}
@@ -691,7 +698,9 @@ func runC10(env *Env) {
 	if env.Thorough() {
 		n = 40000
 	}
-	ttls := []uint32{1, 1, 2, 3, 0, 600}
+	// the configured lifetime is a uint32 of seconds: small values, the default (0), and values
+	// around 2^31/1000, 2^32/1000 and the maximum (the "never expire" idiom)
+	ttls := []uint32{1, 1, 2, 3, 0, 600, 1, 2, 3, 86400, 2147483, 2147484, 4294967, 4294968, 4294969, 31536000, 4294967295}
 	for i := 0; i < n && c10Hangs < c10MaxHangs; i++ {
 		depth := 80
 		switch i % 4 {
